@@ -1,2 +1,13 @@
 import Solvor.Mst.Theorems
 /-! Axiom audit for the property theorems of C13 (run by every check). -/
+#print axioms Solvor.Mst.chkSpanningTree_iff
+#print axioms Solvor.Mst.spanningTree_acyclic
+#print axioms Solvor.Mst.chkSpanningForest_iff
+#print axioms Solvor.Mst.connectedB_correct
+#print axioms Solvor.Mst.msf_cycle_cert
+#print axioms Solvor.Mst.mst_cycle_cert
+#print axioms Solvor.Mst.kruskal_forest
+#print axioms Solvor.Mst.kruskal_minimal
+#print axioms Solvor.Mst.prim_tree
+#print axioms Solvor.Mst.prim_minimal
+#print axioms Solvor.Mst.kruskal_prim_agree
